@@ -372,3 +372,31 @@ def run(ck):
               'normalize_path = canonicalize (%d branch(es)); the unchanged path is only the fallback when that fails' % len(cands) if ok else
               'normalize_path yields %s: `..` components or symbolic links survive, so one directory gets several module ids — the visited test of the discovery does not recognise it '
               '(mutually importing directories are walked until the path length limit) and components are registered twice' % bad, fn=npf['path'])
+
+    # ---- R18.4 import order: the document's own directory first, the explicit imports after it, in both places that build a scope -----------
+    # the import stack is searched from the back, so a later import shadows an earlier one: `import "base"` must be able to shadow the
+    # component's own directory (a Panel.qml that extends the Panel of an imported directory), and a component must see the same
+    # scope whether it is translated as a source or loaded as a type.
+    order = {}
+    for path in ('qmldir::make_doc_component_data', 'uigen::make_doc_module_space'):
+        fn = L.fn(path)
+        if fn is None:
+            ck.floor('R18.4', 0, 1, 'fn ' + path)
+            continue
+        ck.analysed(fn['path'])
+        imps = [c for c in H.calls_in(fn['body']) if c.get('k') == 'MCall' and c.get('m') == 'import_module']
+        lp = next((n for n in walk(fn['body']) if n.get('k') == 'For' and any(x.get('m') == 'imports' for x in H.calls_in(n['iter']))), None)
+        own = [c for c in imps if lp is None or not any(x is c for x in walk(lp))]
+        # the own-directory import: the one outside the loop whose argument is a Directory id
+        def is_dir_id(e):
+            e = H.strip_refs(e)
+            while e.get('k') == 'MCall' and e.get('m') in ('as_ref', 'clone', 'to_owned', 'borrow', 'into'):
+                e = H.strip_refs(e['recv'])
+            return 'Directory' in pp(e, maxlen=120) or any('Directory' in pp(o, maxlen=120) for o in H.origins(fn, e))
+        own_dir = [c for c in own if is_dir_id(c['args'][0])]
+        ok = lp is not None and len(own_dir) == 1 and H.source_before(own_dir[0], lp)
+        order[path] = ok
+        ck.ob('R18.4', 'own-directory-imported-before-explicit-imports|%s' % short(path), ok, L.loc(own_dir[0]) if own_dir else L.loc(fn['body']),
+              'import_module(Directory(<own dir>)) precedes the loop over program.imports()' if ok else
+              'the own directory is imported after (or not apart from) the explicit imports: it shadows them, so a component that extends the same-named component of an imported directory '
+              'resolves its super class to itself', fn=fn['path'])
